@@ -84,6 +84,7 @@ pub fn gen(app: App, flavor: Flavor, over_tcp: bool, rng: &mut Rng) -> Vec<u8> {
         (App::Ghost, _) => ghost::gen_request(rng),
         (App::Stun, Flavor::Valid) if rng.chance(1, 16) => polyglot_stun_dns(rng),
         (App::Stun, Flavor::Valid) => stun::gen_binding_request(rng),
+        (App::Stun, Flavor::Fault) if rng.chance(1, 6) => sig::companion_payload(rng),
         (App::Stun, Flavor::Fault) if rng.chance(1, 3) => {
             // one of the cookie-less (end-anchored) forms followed by trailing bytes: it completes
             // no signature as a datagram, and must not be served by the STUN responder
@@ -199,6 +200,7 @@ pub fn gen(app: App, flavor: Flavor, over_tcp: bool, rng: &mut Rng) -> Vec<u8> {
             }
             v
         }
+        (App::Noise, _) if rng.chance(1, 3) => sig::companion_payload(rng),
         (App::Noise, _) => {
             let n = match rng.below(5) {
                 0 => 0,
